@@ -136,7 +136,7 @@ CHECKS.update({
              'all arguments in (-1,1), at function level and through kinematics of a 2-hinge stack. (2) Finiteness: the gradient jaxpr of a loss on one pipeline step is '
              'interpreted on symbolic lines through the singular inputs (rest, zero angular velocity, resting contact); every denominator met must be non-zero on the line; a '
              'vanishing one is replayed with the real jax.grad and reported only if non-finite. Additionally, AT each singular input itself (line parameter pinned, ground query) all denominators '
-             'are non-zero (core for spring and positional).',
+             'are non-zero (core for spring and positional). (3) Unit level: the Jacobian of the generalized free-joint position update w.r.t. angular velocity at zero spin equals dt/2 q (x) (0, e_i).',
         note='Whole-line obligations: spring core, positional / generalized extended. Derivatives produced purely by JAX rules are trusted: a finite-but-wrong gradient of a JAX-differentiated helper at a '
              'singular input is outside the claim. Steps 2-5 outside.',
         technique='symbolic execution of jax.grad jaxprs; differential oracle between derivative rules; definedness obligations (QF_NRA) on symbolic lines', design='C03 and section 6.2'),
